@@ -59,7 +59,14 @@ def run_twins(repo, props, tier='quick', timeout=None):
                 twins.append({'properties': m.group(1).split('+'), 'name': m.group(2), 'evaluations': int(m.group(3)), 'distinct': int(m.group(4)), 'ms': int(m.group(5))})
             m = re.match(r'TWIN-FAIL (\S+) (\S+) (.*)', line)
             if m:
-                fails.append({'properties': m.group(1).split('+'), 'name': m.group(2), 'failing_input': m.group(3)})
+                ps = m.group(1).split('+')
+                # a message that starts with "[C13]" / "[C14,C15]" belongs to those properties only (a twin may serve several);
+                # C01 (the corollary property) keeps every failure of the twins it shares
+                tag = re.match(r'\[(C\d\d(?:,C\d\d)*)\]', m.group(3))
+                if tag:
+                    named = tag.group(1).split(',')
+                    ps = [x for x in ps if x in named or x == 'C01']
+                fails.append({'properties': ps, 'name': m.group(2), 'failing_input': m.group(3)})
         built = ('TWIN' in out) or rc == 0
         return {'cmd': 'VERIF_TWIN=%s VERIF_TIER=%s cargo test --offline --test verif_twin -- --nocapture  (scratch copy of %s, tests/verif_twin.rs = /verif/replay/twin.rs)' % (','.join(props), tier, repo),
                 'rc': rc, 'built': built, 'twins': twins, 'fails': fails, 'wall_s': round(time.time() - t0, 1),
